@@ -91,36 +91,61 @@ func (s *Schema) RemoveRel(typ string, rel string) {
 // The types must already exist in the schema.
 func (s *Schema) AddTwoWayRel(rel Rel) error {
 	rel1 := rel.Normalize()
-	rel2 := rel.Invert()
-	found1 := false
-	found2 := false
+	rel2 := rel1.Invert()
+
+	var typ1, typ2 *Type
 
 	for i := range s.Types {
 		if s.Types[i].Name == rel1.FromType {
-			found1 = true
+			typ1 = &s.Types[i]
+		}
 
-			err := s.Types[i].AddRel(rel1)
-			if err != nil {
-				return err
-			}
-		} else if s.Types[i].Name == rel2.FromType {
-			found2 = true
-
-			err := s.Types[i].AddRel(rel2)
-			if err != nil {
-				return err
-			}
+		if s.Types[i].Name == rel2.FromType {
+			typ2 = &s.Types[i]
 		}
 	}
 
-	if found1 && found2 {
-		return nil
+	// Nothing must be added if an error is returned, so the relationships
+	// are first added to copies of the types to find out whether both of
+	// them can be added. Both types can be the same type.
+	var try1, try2 *Type
+
+	if typ1 != nil {
+		ctyp := typ1.Copy()
+		try1 = &ctyp
+
+		err := try1.AddRel(rel1)
+		if err != nil {
+			return err
+		}
 	}
 
-	return fmt.Errorf(
-		"jsonapi: types %q and %q must exist",
-		rel1.FromType, rel2.FromType,
-	)
+	if typ2 != nil {
+		try2 = try1
+
+		if typ2 != typ1 {
+			ctyp := typ2.Copy()
+			try2 = &ctyp
+		}
+
+		err := try2.AddRel(rel2)
+		if err != nil {
+			return err
+		}
+	}
+
+	if typ1 == nil || typ2 == nil {
+		return fmt.Errorf(
+			"jsonapi: types %q and %q must exist",
+			rel1.FromType, rel2.FromType,
+		)
+	}
+
+	// It worked with the copies, so it cannot fail.
+	_ = typ1.AddRel(rel1)
+	_ = typ2.AddRel(rel2)
+
+	return nil
 }
 
 // Rels returns all the relationships from the schema's types. For two-way
